@@ -4,7 +4,7 @@ import collections
 import common as C
 
 
-def make(prop, n_quick=None, sample_keys=("case", "entry", "mode", "what", "nsol", "direct")):
+def make(prop, n_quick=None, sample_keys=("case", "entry", "mode", "what", "nsol", "direct"), search_n=40000):
     def correspondence(tier, seed, n=None):
         recs = C.run_harness([prop, tier, seed] + ([n or n_quick] if (n or n_quick) else []))
         own = [r for r in recs if r.get("prop") == prop or r.get("class") == "harness.crash"]
@@ -22,7 +22,7 @@ def make(prop, n_quick=None, sample_keys=("case", "entry", "mode", "what", "nsol
     def search(tier, seed, res):
         out = []
         for s in range(3):
-            recs = C.run_harness([prop, tier, seed + 1000 + s, 40000])
+            recs = C.run_harness([prop, tier, seed + 1000 + s, search_n])
             out += [r for r in recs if r.get("direct") == "fail"]
             if out:
                 break
